@@ -30,6 +30,9 @@ pub enum Shape {
     Placement,
     /// generated Stack/StackN grid entry (C11); handled by `grid::grid_run`
     Grid,
+    /// states whose shifted byte count sits around the 128-byte switch of the byte-copy helper
+    /// and around power-of-two capacities
+    Threshold,
 }
 
 /// words per operation record in history mode
@@ -257,6 +260,16 @@ impl<C: Cfg> World<C> {
             return;
         }
         self.check_state(ctx);
+        if self.spec.mon & MON_VIEW != 0 && op != OP_VIEWS && !self.dead() {
+            // view coherence is re-examined after every operation
+            let mut quiet = String::new();
+            let nt = self.nontrivial;
+            self.do_views(v, &mut quiet);
+            if w != v && self.vecs[w].is_some() && !self.dead() {
+                self.do_views(w, &mut quiet);
+            }
+            self.nontrivial = nt || self.nontrivial;
+        }
         if self.forgot && !self.dead() && !hist {
             // after a leak the vector must stay fully usable
             self.forgot = false;
@@ -683,6 +696,54 @@ pub fn run_body<C: Cfg>(spec: &Spec, shape: Shape, ch: &mut Ch, tr: &mut String,
         }
         Shape::Grid => {
             let _ = write!(tr, "[{}] grid shape needs a grid configuration", C::NAME);
+        }
+        Shape::Threshold => {
+            let fi = ch.pick(nf) as usize;
+            let fl = flavours[fi];
+            let size = C::T::SIZE.max(1);
+            // lengths with len x size (and (len-1) x size) in 120..=136, plus powers of two +-1
+            let mut lens: Vec<usize> = Vec::new();
+            for bytes in [126usize, 127, 128, 129, 130, 136] {
+                for l in [bytes / size, bytes / size + 1, bytes / size + 2] {
+                    if l >= 1 && l <= 140 && !lens.contains(&l) {
+                        lens.push(l);
+                    }
+                }
+            }
+            for l in [15usize, 16, 17, 31, 32, 33] {
+                if !lens.contains(&l) {
+                    lens.push(l);
+                }
+            }
+            // small id spaces: keep the number of instances within the id space
+            if C::T::TRACKED && !C::T::ZST && C::T::IDBYTES == 1 {
+                lens.retain(|l| *l <= 140);
+            }
+            let len = lens[ch.pick(lens.len() as u32) as usize];
+            let len = match fl.fixed_cap() {
+                Some(c) => len.min(c),
+                None => len,
+            };
+            let extra = if fl.fixed_cap().is_none() { Some([0usize, 1][ch.pick(2) as usize]) } else { None };
+            let _ = write!(tr, "[{}] v0: {} len {} cap+{:?} | ", C::NAME, fl.name(), len, extra);
+            w.setup_slot(0, fl, len, extra);
+            let wfl = flavours[(fi + 1) % flavours.len()];
+            w.setup_slot(1, wfl, wfl.fixed_cap().unwrap_or(3).min(3), Some(1));
+            w.check_state("setup");
+            w.nontrivial = false;
+            // operation: insert / remove / swap_remove near the front (largest shifts), erased and typed
+            let idx = [0usize, 1, 2, len / 2][ch.pick(4) as usize].min(len);
+            match ch.pick(6) {
+                0 => w.do_insert(0, Some(idx), Src::Raw, 1, 0, 1, false, tr),
+                1 => w.do_insert(0, Some(idx), Src::Typed, 1, 0, 1, false, tr),
+                2 => w.do_insert(0, Some(idx), Src::HandleRemove, 1, 0, 1, false, tr),
+                3 => w.do_remove(RemKind::Remove, 0, idx, Sink::Drop, 1, 0, tr),
+                4 => w.do_remove(RemKind::Remove, 0, idx, Sink::Typed, 1, 0, tr),
+                _ => w.do_remove(RemKind::Remove, 0, idx, Sink::MovePush, 1, 0, tr),
+            }
+            let _ = write!(tr, "; ");
+            w.check_state("threshold-op");
+            w.nontrivial = true;
         }
         Shape::Placement => {
             let fi = ch.pick(nf) as usize;
